@@ -56,6 +56,9 @@ CHECKS["C19"] = ("bounded symbolic execution of filter_hypergraph on Hypergraph/
 CHECKS["C20"] = ("bounded symbolic execution of s_centralities.py on a symbolic hypergraph (presence bits) with symbolic s, compared with networkx on independently built projections",
     "s-betweenness/closeness of hyperedges for all integer s >= 1, node versions, and the four temporal averaged versions on every sub-family of the candidates; labels include strings containing 'E'. Sub-hypergraph centrality, CEC/HEC are outside the technique (LAPACK / float power iterations) and are not claimed.",
     "networkx centralities as specification on an independent graph, tolerance 1e-9 (DESIGN 3/C20)", "3 C20")
+CHECKS["C15"] = ("shadow execution of the real Hy-MMSBM numpy methods on z3 Real terms (object arrays), one QF_NRA query per obligation (z3, cross-checked with cvc5)",
+    "poisson_params, expected_degree (per node / average), dimension_sequence, degree_sequence(expected), bf/qf helpers equal their definitions as sums over ALL possible hyperedges for all non-negative real u, w of the stated shapes (N<=5, K<=3, D<=N); fit keeps supplied parameters, divides only by provably non-zero terms, keeps w symmetric/diagonal (n_iter<=2) and parameters non-negative (one EM step). EM ascent is NOT claimed (not applicable: transcendental).",
+    "exact real arithmetic (no rounding claim); dense-incidence stand-in for binary_incidence_matrix; a syntactic sign lemma for same-sign polynomials over positive variables (DESIGN 2.2, 3/C15)", "3 C15")
 NOT_YET = {}
 NA = {
  "C17": "HypergraphMT.fit / HySC.fit are in-place float numpy, LAPACK eig, sklearn KMeans and scipy.optimize on data-dependent masks with transcendental statements (EM ascent, log-likelihood agreement); nothing can be kept symbolic, so solver-based checking of the real code does not apply (DESIGN 3/C17).",
